@@ -403,3 +403,57 @@ class MultiScn(Scenario):
 
 
 SCENARIOS["multi"] = MultiScn()
+
+
+# ------------------------------------------------------------------------------------------------ full ipv8_service.IPv8
+class ServiceScn(Scenario):
+    """
+    Unmodified ``ipv8_service.IPv8`` instances with the DEFAULT configuration of ``ConfigBuilder`` (DiscoveryCommunity +
+    HiddenTunnelCommunity (build_tunnels(1) on start) + DHTDiscoveryCommunity, RandomWalk / RandomChurn / PeriodicSimilarity /
+    PingChurn strategies ticked by IPv8's own ticker, DispersyBootstrapper pointed at node 0), on DispatcherEndpoint over SimNet.
+    """
+
+    name = "service"
+    n_nodes = 5
+
+    async def build(self, c, n: int | None = None) -> list[SimNode]:  # noqa: ANN001
+        from ipv8.configuration import ConfigBuilder
+        from ipv8_service import IPv8
+        nodes = []
+        for i in range(n or self.n_nodes):
+            node = SimNode(c.world, f"n{i}", f"1.0.0.{i + 1}", ip6=f"fd00::{i + 1}")
+            cfg = ConfigBuilder().finalize()
+            cfg["logger"] = {"level": "CRITICAL"}
+            cfg["keys"][0]["file"] = None
+            for o in cfg["overlays"]:
+                for bs in o["bootstrappers"]:
+                    bs["init"] = {"ip_addresses": [("1.0.0.1", 8090)], "dns_addresses": [], "bootstrap_timeout": 30.0}
+                if o["class"] == "HiddenTunnelCommunity":
+                    o["initialize"] = dict(o["initialize"])
+                    o["initialize"]["peer_flags"] = {1, 2, 4, 8} if i in (1, 2) else {1, 8}
+            node.ipv8 = node.call(IPv8, cfg)
+            await node.acall(node.ipv8.start)
+            node.endpoint = node.ipv8.endpoint
+            node.raw_endpoint = node.ipv8.endpoint.interfaces["UDPIPv4"]
+            node.port = node.raw_endpoint.get_address()[1]
+            node.my_peer = node.ipv8.keys["anonymous id"]
+            node.network = node.ipv8.network
+            node.overlays = node.ipv8.overlays
+            node.ovs = {type(o).__name__: o for o in node.ipv8.overlays}
+            node.ov = node.ipv8.overlays[0]
+            node.unload_overlay = node.ipv8.unload_overlay
+            nodes.append(node)
+        return nodes
+
+    async def script(self, c, nodes, step=_nop) -> None:  # noqa: ANN001
+        for k in range(6):
+            await asyncio.sleep(10.0)
+            await step(k, f"t={10 * (k + 1)}s of default IPv8 operation")
+
+    async def teardown(self, nodes) -> None:  # noqa: ANN001
+        for n in nodes:
+            if n.name not in n.world.loop.dead:
+                await n.acall(n.ipv8.stop)
+
+
+SCENARIOS["service"] = ServiceScn()
